@@ -243,6 +243,15 @@ func (w *mxWorld) genMxCase(r *rand.Rand) mxCaseSpec {
 		}
 		switch r.Intn(4) {
 		case 0:
+			if r.Intn(2) == 0 {
+				// the stranger names ITSELF as the output address: that makes it a declared signer of the message (it passes
+				// authentication) but not the node's operator or current output address
+				// it only has to pay the difference to the current stake: ask for the genesis stake (still the current one
+				// early in a history), a little more, or the drawn amount
+				st2 := []int64{15_100_000_000 + 1_000_000_000*int64((t.node-chain.KeyNode0)%7), 15_100_000_000 + 1_000_000_000*int64((t.node-chain.KeyNode0)%7) + 1000, stake}[r.Intn(3)]
+				m2 := chain.MsgNodeStake(chain.Key(t.node), ch, st2, u, chain.Addr(mxStranger), dg)
+				return mxCaseSpec{"node_edit", m2, mxStranger, "unrelated-declared", false, true}
+			}
 			return mxCaseSpec{"node_edit", msg, mxStranger, "unrelated", false, false}
 		case 1:
 			if t.out >= 0 {
